@@ -1,19 +1,33 @@
-(* C04, W-band LO part — PARTIAL: the decoder [w_reply_wfb] (';'-separated items each ending with
-   CR LF, single-byte text) is applied to every reply the implementation produces in the
-   correspondence suite (Corr/SmbWLOCorr.w_ok_wf) and by the implementation-level oracle; the
-   universal theorem is not proved.  It is FALSE as stated for the Ref getters: capitalize() maps
-   'ÿ' to U+0178, which is not a single byte (known finding wlo_ref_capitalize_non_latin1); the
-   witness below is proved.  Statements only. *)
-From DS Require Import Base.Prelude Model.SmbCommon Model.SmbWLO Proofs.SmbCommon Proofs.SmbWLO.
+(* C04, W-band LO part (code with fixes/26 applied) — every reply of every byte history decodes
+   under [w_reply_wfb] (';'-separated items, each ending with CR LF and holding no other LF;
+   single-byte text), PROVIDED the two builtins behave: repr(float) and str.capitalize() return
+   single-byte text without LF and ';'.  For capitalize() this is false on 'ÿ', 'µ' (known finding
+   wlo_ref_capitalize_non_latin1): the refutation witness is proved below.  No request identity in
+   this protocol.  Statements only. *)
+From DS Require Import Base.Prelude Model.SmbCommon Model.SmbWLO Proofs.SmbCommon Proofs.SmbWLO
+  Proofs.SmbWLOHist.
 
+Theorem C04_wlo_reply_wf_except : forall fl cap,
+  (forall tok rp, fl tok = WFloat rp -> text_ok rp) ->
+  (forall s c, cap s = Some c -> text_ok s -> text_ok c) ->
+  forall bs r, bytes bs -> In (OReply r) (snd (w_run fl cap w_start bs)) -> w_reply_wfb r = true.
+Proof. exact w_replies_wf. Qed.
+Print Assumptions C04_wlo_reply_wf_except.
+
+Theorem C04_wlo_wf_bytes : forall r, w_reply_wfb r = true -> bytes r.
+Proof. exact w_reply_wf_shape. Qed.
+Print Assumptions C04_wlo_wf_bytes.
+
+(* without the hypothesis on capitalize() the statement is false *)
 Theorem C04_wlo_charset_refuted : exists fl cap bs r,
-  In (OReply r) (snd (w_run fl cap w_start bs)) /\ bytesb r = false.
+  bytes bs /\ In (OReply r) (snd (w_run fl cap w_start bs)) /\ bytesb r = false.
 Proof.
   exists (fun _ => WNotFloat), (fun s => if zlist_eqb s [255] then Some [376] else Some s),
          (lines_bytes [w_write RRH [255; 13]; w_read RRH]), [376; 46; 13; 10].
-  split; [vm_compute; tauto | reflexivity].
+  split; [apply bytesb_spec; reflexivity | split; [vm_compute; tauto | reflexivity]].
 Qed.
 Print Assumptions C04_wlo_charset_refuted.
 
-Example C04_wlo_ex : w_reply_wfb (ACK ++ CRLF ++ [SEMI] ++ W_STATUS ++ CRLF) = true /\ w_reply_wfb (ACK ++ [LF]) = false.
-Proof. split; reflexivity. Qed.
+Example C04_wlo_ex : w_reply_wfb (ACK ++ CRLF ++ [SEMI] ++ W_STATUS ++ CRLF) = true /\ w_reply_wfb (ACK ++ [LF]) = false
+  /\ text_ok W_ZERO.
+Proof. split; [reflexivity | split; [reflexivity | apply text_ok_lit; reflexivity]]. Qed.
